@@ -3,6 +3,7 @@ package interpreter
 import (
 	"bufio"
 	"fmt"
+	"io"
 	"os"
 	"strings"
 	"time"
@@ -24,6 +25,21 @@ func (n NativeClockFn) String() string {
 
 // NativeInputFn defines the native `input` function for the interpreter.
 type NativeInputFn struct{}
+
+// All input calls share one buffered reader: a reader per call would swallow
+// the lines that follow the one it returns.
+var (
+	inputReader *bufio.Reader
+	inputSource *os.File
+)
+
+func stdinReader() *bufio.Reader {
+	if inputReader == nil || inputSource != os.Stdin {
+		inputSource = os.Stdin
+		inputReader = bufio.NewReader(os.Stdin)
+	}
+	return inputReader
+}
 
 // Call executes the native `input` function.
 func (n NativeInputFn) Call(i *Interpreter, arguments []interface{}) (interface{}, error) {
@@ -49,10 +65,9 @@ func (n NativeInputFn) Call(i *Interpreter, arguments []interface{}) (interface{
 		fmt.Print(prompt)
 	}
 
-	// Read the input from the user
-	reader := bufio.NewReader(os.Stdin)
-	input, err := reader.ReadString('\n')
-	if err != nil {
+	// Read the input from the user (a final line without a newline still counts)
+	input, err := stdinReader().ReadString('\n')
+	if err != nil && (err != io.EOF || input == "") {
 		return nil, fmt.Errorf("failed to read input: %v", err)
 	}
 
